@@ -62,6 +62,34 @@ CLAIMED = {
              '(absolute and metamorphic); coded streams truncated or corrupted with intact HTTP framing must raise ProtocolError.',
         note='Trusted: zlib one-shot decode as reference. Byte 0 of a gzip stream is never corrupted (documented passthrough of '
              'bodies without gzip magic is not judged).'),
+    'C04': dict(
+        level='exploration', engine='archive', design_ref='4/C04',
+        technique='deterministic simulation: real HTTP client + WARC recorder fetching scripted exchanges concurrently over a '
+                  'simulated transport (tape-drawn segmentation, latency, truncation, overrun); the server logs every byte '
+                  'received and sent and an independent strict WARC reader compares record blocks with that log',
+        text='Seeded search over response formattings, framings, bodies, request kinds (GET/HEAD/POST with body), 1..3 concurrent '
+             'fetchers on keep-alive connections and segmentations. Oracle: per completed exchange exactly one request record '
+             'whose block equals the bytes the server received and one response/revisit record whose block equals the message '
+             'the server sent (surplus excluded), naming the request as concurrent; aborted exchanges have no response record.',
+        note='Trusted: refs/warc.py, refs/rfc7230.py (message extent), gzip/zlib. Surplus bytes are only sent so that they arrive in '
+             'the same read as body bytes (a separately delivered surplus is C08 known finding K1).'),
+    'C05': dict(
+        level='exploration', engine='archive', design_ref='4/C05',
+        technique='deterministic simulation: same runs as C04 with the recorder configuration drawn (compression, digests, rollover, '
+                  'appending phase, log record, extra warcinfo fields, dedup/revisit through the CDX of a previous phase); every '
+                  'output file is parsed by a strict independent WARC/1.0 + gzip-member reader and digests are recomputed',
+        text='Seeded search over recorder configurations and exchange sequences. Oracle: grammar, Content-Length, CRLF CRLF, one-line '
+             'named fields, unique record IDs, WARC-Warcinfo-ID of the file, SHA-1 block digest, SHA-1 payload digest over the '
+             'bytes after the header block as present in the block, revisit blocks cut at the header end, one gzip member per record.',
+        note='Trusted: refs/warc.py, hashlib, zlib. FTP recorder sessions are exercised by the ftp harness once built, not here.'),
+    'C07': dict(
+        level='exploration', engine='archive', design_ref='4/C07',
+        technique='deterministic simulation: same runs as C04/C05 with cdx on, rollover and appending; each CDX line is checked '
+                  'against the byte slice it names, parsed by the independent reader',
+        text='Seeded search as C04/C05. Oracle: exactly one CDX line per response record and none without; file[g][V:V+S] is '
+             'exactly one record (one gzip member) with that record ID, URL and payload digest; status and MIME type equal '
+             'those parsed by the reference from the archived header block (multi-line, > 4 KiB, structured subtypes).',
+        note='Trusted: refs/warc.py, refs/rfc7230.py header parsing.'),
 }
 
 PENDING_REASON = 'check not built yet in this round (designed in DESIGN.md section 4); no claim is made'
